@@ -52,15 +52,17 @@ prop(
               "notifications the real subscription produces sample by sample in virtual time; accepted filters must be able to report",
     rule="case = (filter: trigger x deadband type {None, Absolute, Percent, unknown} x deadband value {0, 0.5, 1, 2, 10, 1e-9, 1e300, "
          "inf, negative, NaN, ...}, value family {Double, Float, Int32, Int64, UInt64, Byte, String, Boolean, ByteString, Double array, "
-         "mixed}, variable kind {stored value, getter callback}, history of 20-60 samples drawn from: unchanged, within / exactly at / "
+         "mixed}, variable kind {stored value, getter callback}, timestamps to return {Both (half of the cases), Source, Server, "
+         "Neither}, history of 20-60 samples drawn from: unchanged, within / exactly at / "
          "just beyond / far beyond the deadband, slow drift, status change, timestamp change (both, source only, server only), value "
          "absent, type switch, optional filter modify) followed by a phase of large value changes. distinct = (trigger, deadband "
-         "type, deadband value class, family, variable kind)",
+         "type, deadband value class, family, variable kind, timestamps to return)",
     design_ref="4 C25",
     level_text="One sample per publishing interval; each sample is classified by the reference as must-report, must-not-report or "
                "unspecified (NaN arithmetic, which of the two timestamps the timestamp trigger means, deadband on non-scalar numerics, "
                "filters with undefined semantics) and the real outcome must agree where specified; the reported value must be the "
-               "sample. For every filter CreateMonitoredItems accepted whose trigger selects the value, a run of large value changes "
+               "sample. Which timestamps the client asked to have returned must not change what counts as a change (for the "
+               "timestamp trigger the signature of a spurious report names a non-Both choice). For every filter CreateMonitoredItems accepted whose trigger selects the value, a run of large value changes "
                "must yield at least one report after the first.",
     level_note="Part 4 names the source timestamp for StatusValueTimestamp while the code (and its unit test) compares the server "
                "timestamp; the oracle treats a change of only one of the two as unspecified. Percent deadband cannot be driven with an "
